@@ -46,6 +46,7 @@ type PeerScript struct {
 	PreProp    []string          `json:"preprop"`    // comment / ;PM lines before each proposal block
 	EarlyFQ    bool              `json:"earlyfq"`    // CMS style: FQ instead of FF when nothing (more) to send, whatever the other side said
 	TrailingLF bool              `json:"trailinglf"` // terminate lines with CR LF instead of CR
+	FFFirst    bool              `json:"fffirst"`    // send FF in the first own turn although messages are pending (they "arrive later")
 }
 
 type peer struct {
@@ -60,6 +61,7 @@ type peer struct {
 	defer_       map[string]bool
 	libLastEmpty bool
 	libHadTurn   bool
+	hadTurn      bool
 	stored       map[string]bool
 	problems     []string
 }
@@ -212,6 +214,12 @@ func (p *peer) myTurn() (quit bool, err error) {
 			mids = append(mids, m.Spec.MID)
 		}
 	}
+	if p.sc.FFFirst && !p.hadTurn {
+		p.hadTurn = true
+		p.ev(rec.Event{"op": "Offer", "ms": []string{}, "fw": []string{}})
+		return false, p.send("FF")
+	}
+	p.hadTurn = true
 	p.ev(rec.Event{"op": "Offer", "ms": mids, "fw": []string{}})
 	if len(pend) == 0 {
 		if p.libLastEmpty || (p.sc.EarlyFQ && p.libHadTurn) {
